@@ -163,6 +163,10 @@ pub fn eval(n: &Node, at: C) -> R {
                 }
             }
             use Func::*;
+            if vs.iter().any(|v| !finite(*v)) {
+                // e.g. exp2(-inf - inf i): a zero modulus times an undefined direction
+                return RV::Unspec("U3: function of a non-finite complex argument");
+            }
             let z = vs[0];
             match f {
                 Abs => {
